@@ -12,6 +12,8 @@ fn vocab() -> Vec<&'static str> {
         "a", "é", "€", ".", "*", "+", "?", "|", "(", ")", "(?:", "(?=", "(?!", "(?<=", "(?<!", "(?>", "(?<n>", "(?P<n>", "[", "]", "[^", "{", "}", "{2}", "{2,",
         "{18446744073709551615}", "{99999999999999999999}", "\\", "\\1", "\\2", "\\k<n>", "\\k<1>", "\\k<-1>", "\\k<99999999999>", "(?P=n)", "\\g<1>", "\\K", "\\G", "\\b", "\\d", "\\x{", "\\x41",
         "\\u0041", "\\p{L}", "(?i)", "(?x)", "(?(1)", "(?(", "(?#", "#", " ", "^", "$", "\\z", "\\A", "\\h", "\\e", "-", ",", "1", "\\Q", "\\", "\u{0e01}", "\\x{100000000}", "\\x{10ffff}", "\\x{110000}", "\\u{fffffffff}", "\\400000000", "\\g400000000", "(?(400000000)", "\\k<400000000>",
+        // unfinished counted repeats, closed comments, flag groups, free-spacing tails
+        "{2", "{2 ", "(?#c)", "(?i:", "(?x: ", "# t", "\n", "{,2}", "{2,3", "(?<n>a)", "(?(<n>)", "(?'n'", "\\k'n'",
     ]
 }
 
@@ -47,9 +49,91 @@ fn check_inner(p: &str) -> Option<String> {
     }
 }
 
+/// patterns nested far deeper than the parser's recursion limit, one per opening construct: Regex::new has to answer (Ok or Err)
+/// without exhausting the native stack.  A stack overflow aborts the process, so each is tried in a child process.
+fn deep_patterns() -> Vec<Value> {
+    let openers: [(&str, &str); 14] = [
+        ("(", ")"), ("(?:", ")"), ("(?i:", ")"), ("(?=", ")"), ("(?!", ")"), ("(?<=", ")"), ("(?<!", ")"), ("(?>", ")"), ("(?<n>", ")"),
+        ("(?(1)", ")"), ("(?(", "a)b)"), ("(?x:", ")"), ("(?:a|", ")"), ("(?:a", ")*"),
+    ];
+    let mut out = vec![];
+    for (o, c) in openers {
+        for n in [100usize, 200_000] {
+            out.push(json!({"deep": {"open": o, "close": c, "n": n, "closed": true}}));
+            out.push(json!({"deep": {"open": o, "close": c, "n": n, "closed": false}}));
+        }
+    }
+    out
+}
+
+/// the pattern a witness stands for (deep patterns are megabytes long: the witness keeps the generator form)
+fn pattern_of(w: &Value) -> Option<String> {
+    if let Some(d) = w.get("deep") {
+        let n = d["n"].as_u64()? as usize;
+        let o = d["open"].as_str()?;
+        let c = d["close"].as_str()?;
+        return Some(if d["closed"].as_bool()? { format!("{}a{}", o.repeat(n), c.repeat(n)) } else { o.repeat(n) });
+    }
+    Some(w["pattern"].as_str()?.to_string())
+}
+
+fn in_child(w: &Value) -> Option<String> {
+    let exe = match std::env::current_exe() {
+        Ok(e) => e,
+        Err(e) => return Some(format!("cannot find own executable: {}", e)),
+    };
+    let out = match std::process::Command::new(exe).args(["run", "parse", &w.to_string()]).env("FR_REPLAY_CHILD", "1").output() {
+        Ok(o) => o,
+        Err(e) => return Some(format!("cannot start the child process: {}", e)),
+    };
+    if out.status.success() {
+        return None;
+    }
+    if out.status.code() == Some(1) {
+        // the child reports an ordinary failure
+        let so = String::from_utf8_lossy(&out.stdout).to_string();
+        return Some(format!("child: {}", so.trim()));
+    }
+    let se = String::from_utf8_lossy(&out.stderr);
+    Some(format!("Regex::new killed the process ({:?}): {}", out.status, se.lines().last().unwrap_or("")))
+}
+
+struct Rng(u64);
+impl Rng {
+    fn next(&mut self) -> u64 {
+        self.0 = self.0.wrapping_add(0x9E3779B97F4A7C15);
+        let mut z = self.0;
+        z = (z ^ (z >> 30)).wrapping_mul(0xBF58476D1CE4E5B9);
+        z = (z ^ (z >> 27)).wrapping_mul(0x94D049BB133111EB);
+        z ^ (z >> 31)
+    }
+}
+
 impl Family for Parse {
-    fn search(&self, budget: &mut Budget, _seed: u64) -> Option<(Value, String)> {
+    fn search(&self, budget: &mut Budget, seed: u64) -> Option<(Value, String)> {
         let v = vocab();
+        // (1) deep nesting, in child processes
+        for w in deep_patterns() {
+            budget.evals += 1;
+            if let Some(d) = in_child(&w) {
+                return Some((w, d));
+            }
+        }
+        // (2) seeded random sequences of 4..8 tokens: a fixed share of the budget, so that the exhaustive part below keeps most of it
+        let total = budget.deadline.saturating_duration_since(std::time::Instant::now());
+        let random_until = std::time::Instant::now() + total / 4;
+        let mut rng = Rng(seed ^ 0xC06);
+        while std::time::Instant::now() < random_until {
+            for _ in 0..256 {
+                let len = 4 + (rng.next() % 5) as usize;
+                let s: String = (0..len).map(|_| v[(rng.next() % v.len() as u64) as usize]).collect();
+                budget.evals += 1;
+                if let Some(d) = check(&s) {
+                    return Some((json!({"pattern": s}), d));
+                }
+            }
+        }
+        // (3) exhaustive: all sequences of up to 3 tokens
         for len in 1..=3usize {
             let mut idx = vec![0usize; len];
             loop {
@@ -83,6 +167,10 @@ impl Family for Parse {
         None
     }
     fn run(&self, w: &Value) -> Option<String> {
-        check(w["pattern"].as_str()?)
+        let p = pattern_of(w)?;
+        if w.get("deep").is_some() && std::env::var("FR_REPLAY_CHILD").is_err() {
+            return in_child(w);
+        }
+        check(&p)
     }
 }
